@@ -185,7 +185,7 @@ pub fn observe(w: &World, cfg: &Cfg) -> Obs {
     }
     let mut bank = BTreeMap::new();
     for a in &who {
-        for d in [USEI, KUSD, UATOM, UJUNK] {
+        for d in [USEI, KUSD, UATOM, UJUNK, UIBC] {
             let b = w.balance(a, d);
             if b > 0 {
                 bank.insert((a.clone(), d.to_string()), b);
